@@ -2,11 +2,14 @@
 // changes: event type and jqFilter).
 //
 // A case scripts a history of watch events for a REAL resourceInformer
-// (pkg/kube_events_manager, reached through the add-only verif export
-// NewVerifC08Informer): the informer is built around a MonitorConfig (event types,
-// jqFilter) without a cluster, its OnAdd/OnUpdate/OnDelete handlers are called
-// synchronously with unstructured objects, the fired KubeEvents are collected through
-// the event callback and the cached objects are read after every delivery.
+// (pkg/kube_events_manager): a real monitor is built on a fake cluster around a
+// MonitorConfig (event types, jqFilter) by NewMonitor + CreateInformers (reached through the
+// add-only verif export NewVerifC01Monitor), its informer is NOT started; the harness calls
+// the informer's client-go handler methods OnAdd/OnUpdate/OnDelete synchronously with the
+// argument in the form client-go uses - the *unstructured.Unstructured itself, or, for an
+// object that a relist no longer lists, the cache.DeletedFinalStateUnknown tombstone that a
+// real client-go DeltaFIFO.Replace produces for it -, collects the fired KubeEvents through
+// the event callback and reads the monitor's snapshot after every delivery.
 // The expected jq values are computed with /usr/bin/jq (an oracle independent of gojq)
 // and handed to Coq as the case's oracle table.
 package c08
@@ -22,7 +25,9 @@ import (
 	"time"
 
 	"github.com/deckhouse/deckhouse/pkg/log"
+	"github.com/flant/kube-client/fake"
 	"k8s.io/apimachinery/pkg/apis/meta/v1/unstructured"
+	"k8s.io/client-go/tools/cache"
 
 	kem "github.com/flant/shell-operator/pkg/kube_events_manager"
 	kemtypes "github.com/flant/shell-operator/pkg/kube_events_manager/types"
@@ -37,9 +42,17 @@ type State struct {
 }
 
 type Ev struct {
-	Type  string `json:"type"`  // Added | Modified | Deleted
+	Type  string `json:"type"`  // Added | Modified | Deleted: the handler called (OnAdd | OnUpdate | OnDelete)
 	State int    `json:"state"` // index into States
+	// form of the handler's argument: "" = the object itself (*unstructured.Unstructured),
+	// "tombstone" = cache.DeletedFinalStateUnknown{Key, Obj: object} as client-go's
+	// DeltaFIFO.Replace makes it for an object that is missing from a relist
+	Form string `json:"form,omitempty"`
+	// "relist" = the delivery belongs to the batch a relist after a broken watch produces
+	Batch string `json:"batch,omitempty"`
 }
+
+const formTombstone = "tombstone"
 
 type Input struct {
 	Types      []string `json:"types"`       // executeHookOnEvent
@@ -78,6 +91,9 @@ type Obs struct {
 }
 
 const unknownState = 999
+
+// kind of the generated objects and of the monitor (a kind the fake cluster knows)
+const objKind = "ConfigMap"
 
 func parseObj(s string) *unstructured.Unstructured {
 	u := &unstructured.Unstructured{}
@@ -121,13 +137,57 @@ func oracle(filter, obj string) Answer {
 	return a
 }
 
+// tombstoneOf lets client-go itself make what OnDelete receives for an object that a relist
+// no longer lists: the object sits in the informer's store (the DeltaFIFO's KnownObjects,
+// configured as sharedIndexInformer.Run configures it), the new list is empty,
+// DeltaFIFO.Replace queues the Deleted delta and Pop hands it over as processDeltas gets it.
+func tombstoneOf(obj *unstructured.Unstructured) (interface{}, error) {
+	store := cache.NewStore(cache.DeletionHandlingMetaNamespaceKeyFunc)
+	if err := store.Add(obj); err != nil {
+		return nil, err
+	}
+	fifo := cache.NewDeltaFIFOWithOptions(cache.DeltaFIFOOptions{KnownObjects: store, EmitDeltaTypeReplaced: true})
+	if err := fifo.Replace([]interface{}{}, "2"); err != nil {
+		return nil, err
+	}
+	if len(fifo.ListKeys()) != 1 {
+		return nil, fmt.Errorf("DeltaFIFO.Replace queued %d keys for one missing object", len(fifo.ListKeys()))
+	}
+	var arg interface{}
+	_, err := fifo.Pop(func(x interface{}, _ bool) error {
+		deltas, ok := x.(cache.Deltas)
+		if !ok || len(deltas) != 1 || deltas[0].Type != cache.Deleted {
+			return fmt.Errorf("unexpected deltas for a missing object: %#v", x)
+		}
+		arg = deltas[0].Object
+		return nil
+	})
+	return arg, err
+}
+
+// deliver calls the client-go handler method of the informer as processDeltas does.
+func deliver(h cache.ResourceEventHandler, eventType string, arg interface{}) {
+	switch eventType {
+	case "Added":
+		h.OnAdd(arg, false)
+	case "Modified":
+		h.OnUpdate(nil, arg)
+	case "Deleted":
+		h.OnDelete(arg)
+	}
+}
+
 func Run(in Input) Obs {
 	var o Obs
+	log.SetDefaultLevel(log.LevelFatal)
 	mc := &kem.MonitorConfig{}
 	mc.Metadata.MonitorId = "c08-monitor"
 	mc.Metadata.DebugName = "c08"
+	mc.Metadata.LogLabels = map[string]string{}
+	mc.Metadata.MetricLabels = map[string]string{}
+	mc.Logger = log.NewNop()
 	mc.ApiVersion = "v1"
-	mc.Kind = "K"
+	mc.Kind = objKind
 	mc.JqFilter = in.Filter
 	mc.KeepFullObjectsInMemory = true // so that the cached Object can be observed
 	if in.TypesUnset {
@@ -142,7 +202,22 @@ func Run(in Input) Obs {
 	ctx, cancel := context.WithCancel(context.Background())
 	defer cancel()
 	ms := metricstorage.NewMetricStorage(ctx, "c08_", true, log.NewNop())
-	inf := kem.NewVerifC08Informer(mc, ms)
+	// the monitor as the operator builds it (NewMonitor + CreateInformers: one informer for
+	// all namespaces, initial list of the empty fake cluster), events unlocked, not started:
+	// the harness plays client-go's part and calls the informer's handler methods itself
+	fc := fake.NewFakeCluster(fake.ClusterVersionV119)
+	vm, err := kem.NewVerifC01Monitor(ctx, fc.Client, ms, mc)
+	if err != nil {
+		o.Err = "create monitor: " + err.Error()
+		return o
+	}
+	if len(vm.M.ResourceInformers) != 1 {
+		o.Err = fmt.Sprintf("expected one informer, got %d", len(vm.M.ResourceInformers))
+		return o
+	}
+	var handler cache.ResourceEventHandler = vm.M.ResourceInformers[0]
+	vm.M.EnableKubeEventCb()
+	taken := 0
 
 	canonState := make([]string, len(in.States))
 	ridToId := map[string]int{}
@@ -172,10 +247,21 @@ func Run(in Input) Obs {
 
 	for _, ev := range in.History {
 		st := in.States[ev.State]
-		inf.Handle(kemtypes.WatchEventType(ev.Type), parseObj(st.Obj))
+		var arg interface{} = parseObj(st.Obj)
+		if ev.Form == formTombstone {
+			var err error
+			if arg, err = tombstoneOf(parseObj(st.Obj)); err != nil {
+				o.Err = "tombstone: " + err.Error()
+				return o
+			}
+		}
+		deliver(handler, ev.Type, arg)
 		var so StepObs
 		var evFR json.RawMessage
-		for _, ke := range inf.TakeEvents() {
+		events := vm.Events()
+		fresh := events[taken:]
+		taken = len(events)
+		for _, ke := range fresh {
 			f := Fired{Type: "?", State: unknownState}
 			if len(ke.WatchEvents) == 1 && ke.Type == kemtypes.TypeEvent && ke.MonitorId == "c08-monitor" {
 				f.Type = string(ke.WatchEvents[0])
@@ -188,7 +274,7 @@ func Run(in Input) Obs {
 		}
 		var cachedFR json.RawMessage
 		inCache := false
-		for _, c := range inf.CachedObjects() {
+		for _, c := range vm.M.Snapshot() {
 			id, ok := ridToId[c.Metadata.ResourceId]
 			if !ok {
 				id = unknownState
@@ -246,7 +332,13 @@ func Render(in Input, obs *Obs, crash string) core.Case {
 	answers := core.CoqList(o.Answers, func(a Answer) string {
 		return fmt.Sprintf("(%s, %s)", core.CoqList(a.Outs, func(r json.RawMessage) string { return coqJSONText(r) }), core.CoqBool(a.Failed))
 	})
-	hist := core.CoqList(in.History, func(e Ev) string { return fmt.Sprintf("(%s, %d)", coqType(e.Type), e.State) })
+	hist := core.CoqList(in.History, func(e Ev) string {
+		form := "FObject"
+		if e.Form == formTombstone {
+			form = "FTombstone"
+		}
+		return fmt.Sprintf("(%s, %d, %s)", coqType(e.Type), e.State, form)
+	})
 	steps := o.Steps
 	if crash != "" {
 		// keep what is known; the driver reports the crash as a direct finding and the
@@ -282,9 +374,20 @@ func Render(in Input, obs *Obs, crash string) core.Case {
 		c.Tags = append(c.Tags, "types:{"+strings.Join(ts, ",")+"}")
 	}
 	fired, suppressed, repeats, deletes := 0, 0, 0, 0
+	tombstones, tombstonesOther, relists := 0, 0, 0
 	lastState := map[int]int{}
 	for i, e := range in.History {
 		id := in.States[e.State].Id
+		if e.Form == formTombstone {
+			if e.Type == "Deleted" {
+				tombstones++
+			} else {
+				tombstonesOther++
+			}
+		}
+		if e.Batch == "relist" {
+			relists++
+		}
 		if e.Type == "Deleted" {
 			deletes++
 			delete(lastState, id)
@@ -313,6 +416,33 @@ func Render(in Input, obs *Obs, crash string) core.Case {
 	}
 	if deletes > 0 {
 		c.Tags = append(c.Tags, "has-delete")
+	}
+	// the form of the handler's argument
+	switch {
+	case tombstones > 0:
+		c.Tags = append(c.Tags, "delivery:some-Deleted-as-tombstone(DeletedFinalStateUnknown by value)")
+		listed := in.TypesUnset
+		for _, t := range in.Types {
+			if t == "Deleted" {
+				listed = true
+			}
+		}
+		if listed {
+			c.Tags = append(c.Tags, "tombstone:Deleted-listed")
+		} else {
+			c.Tags = append(c.Tags, "tombstone:Deleted-not-listed")
+		}
+		if deletes > tombstones {
+			c.Tags = append(c.Tags, "delivery:both-forms-of-Deleted")
+		}
+	case deletes > 0:
+		c.Tags = append(c.Tags, "delivery:every-Deleted-as-object")
+	}
+	if tombstonesOther > 0 {
+		c.Tags = append(c.Tags, "delivery:tombstone-to-OnAdd/OnUpdate")
+	}
+	if relists > 0 {
+		c.Tags = append(c.Tags, "relist-batch")
 	}
 	failed, nonObject := false, false
 	for _, a := range o.Answers {
@@ -368,7 +498,7 @@ func (g *gen) pick(xs ...interface{}) interface{} { return xs[g.r.Intn(len(xs))]
 func (g *gen) baseObject(id int) map[string]interface{} {
 	o := map[string]interface{}{
 		"apiVersion": "v1",
-		"kind":       "K",
+		"kind":       objKind,
 		"metadata":   map[string]interface{}{"name": fmt.Sprintf("o%d", id), "namespace": "n"},
 	}
 	if g.r.Chance(80) {
@@ -454,7 +584,9 @@ var typeSubsets = [][]string{
 	{"Added", "Modified", "Deleted"},
 }
 
-func (g *gen) history(nIds, maxLen int, f filterDef, subset int) Input {
+// forms = the history uses both forms of the handler's argument: a Deleted is delivered
+// as a tombstone half of the time and relist batches occur.
+func (g *gen) history(nIds, maxLen int, f filterDef, subset int, forms bool) Input {
 	in := Input{Filter: f.expr, Family: f.family}
 	if subset < 0 {
 		in.TypesUnset = true
@@ -478,17 +610,80 @@ func (g *gen) history(nIds, maxLen int, f filterDef, subset int) Input {
 		stateIdx[t] = len(in.States) - 1
 		return len(in.States) - 1
 	}
-	cur := map[int]map[string]interface{}{}   // current object per id (nil = absent)
+	cur := map[int]map[string]interface{}{}    // current object per id (nil = absent)
 	prev := map[int][]map[string]interface{}{} // earlier states per id (to return to)
+	// how a Deleted is delivered
+	delForm := func() string {
+		if forms && g.r.Chance(50) {
+			return formTombstone
+		}
+		return ""
+	}
+	// a relist after a broken watch (client-go: DeltaFIFO.Replace against the informer's
+	// store, then processDeltas): the listed objects in list order - OnUpdate for a key the
+	// store has (changed during the outage, deleted and re-created, or unchanged: the
+	// unchanged ones are left out for a listener that is not due for a resync), OnAdd for
+	// a new key -, then a tombstone carrying the last stored state for every key of the
+	// store that the list lacks
+	relist := func() {
+		var live, gone []Ev
+		for id := 1; id <= nIds; id++ {
+			o := cur[id]
+			k := g.r.Intn(100)
+			if o == nil {
+				if k < 40 {
+					var no map[string]interface{}
+					if len(prev[id]) > 0 && g.r.Chance(50) {
+						no = prev[id][g.r.Intn(len(prev[id]))]
+					} else {
+						no = g.baseObject(id)
+					}
+					cur[id] = no
+					prev[id] = append(prev[id], no)
+					live = append(live, Ev{Type: "Added", State: addState(id, no), Batch: "relist"})
+				}
+				continue
+			}
+			switch {
+			case k < 45:
+				gone = append(gone, Ev{Type: "Deleted", State: addState(id, o), Form: formTombstone, Batch: "relist"})
+				cur[id] = nil
+			case k < 75:
+				no := g.mutate(o)
+				if g.r.Chance(30) {
+					no = g.mutate(no)
+				} else if g.r.Chance(15) {
+					no = g.baseObject(id) // deleted and re-created under the same name
+				}
+				cur[id] = no
+				prev[id] = append(prev[id], no)
+				live = append(live, Ev{Type: "Modified", State: addState(id, no), Batch: "relist"})
+			default:
+				if g.r.Chance(60) {
+					live = append(live, Ev{Type: "Modified", State: addState(id, o), Batch: "relist"})
+				}
+			}
+		}
+		for i := len(live) - 1; i > 0; i-- {
+			j := g.r.Intn(i + 1)
+			live[i], live[j] = live[j], live[i]
+		}
+		in.History = append(in.History, live...)
+		in.History = append(in.History, gone...)
+	}
 	n := 2 + g.r.Intn(maxLen-1)
 	for len(in.History) < n {
+		if forms && len(in.History) > 0 && g.r.Chance(15) {
+			relist()
+			continue
+		}
 		id := 1 + g.r.Intn(nIds)
 		o := cur[id]
 		k := g.r.Intn(100)
 		switch {
 		case o == nil && len(prev[id]) > 0 && k < 10:
 			// a Deleted for an object that is not cached (already deleted)
-			in.History = append(in.History, Ev{"Deleted", addState(id, prev[id][len(prev[id])-1])})
+			in.History = append(in.History, Ev{Type: "Deleted", State: addState(id, prev[id][len(prev[id])-1]), Form: delForm()})
 		case o == nil:
 			// (re)create: Added; sometimes exactly the state it had before the delete
 			var no map[string]interface{}
@@ -499,14 +694,14 @@ func (g *gen) history(nIds, maxLen int, f filterDef, subset int) Input {
 			}
 			cur[id] = no
 			prev[id] = append(prev[id], no)
-			in.History = append(in.History, Ev{"Added", addState(id, no)})
+			in.History = append(in.History, Ev{Type: "Added", State: addState(id, no)})
 		case k < 25:
 			// re-delivery of the identical state (resync / relist / informer restart)
 			t := "Modified"
 			if g.r.Chance(40) {
 				t = "Added"
 			}
-			in.History = append(in.History, Ev{t, addState(id, o)})
+			in.History = append(in.History, Ev{Type: t, State: addState(id, o)})
 		case k < 75:
 			no := g.mutate(o)
 			if g.r.Chance(15) && len(prev[id]) > 0 {
@@ -518,18 +713,20 @@ func (g *gen) history(nIds, maxLen int, f filterDef, subset int) Input {
 			if g.r.Chance(8) {
 				t = "Added"
 			}
-			in.History = append(in.History, Ev{t, addState(id, no)})
+			in.History = append(in.History, Ev{Type: t, State: addState(id, no)})
 		case k < 90:
 			// delete; the final state delivered with a Delete may differ from the cached one
+			// (a tombstone carries the last state the store held)
 			d := o
-			if g.r.Chance(30) {
+			form := delForm()
+			if form == "" && g.r.Chance(30) {
 				d = g.mutate(o)
 			}
 			cur[id] = nil
-			in.History = append(in.History, Ev{"Deleted", addState(id, d)})
+			in.History = append(in.History, Ev{Type: "Deleted", State: addState(id, d), Form: form})
 		default:
 			// a Deleted for an object that is delivered again right away, or a stray Modified
-			in.History = append(in.History, Ev{"Deleted", addState(id, o)})
+			in.History = append(in.History, Ev{Type: "Deleted", State: addState(id, o), Form: delForm()})
 			cur[id] = nil
 		}
 	}
@@ -545,7 +742,7 @@ func fixed(types []string, unset bool, filter, family string, objs []string, ids
 }
 
 func k(name string, rest string) string {
-	s := `{"apiVersion":"v1","kind":"K","metadata":{"name":"` + name + `","namespace":"n"}`
+	s := `{"apiVersion":"v1","kind":"` + objKind + `","metadata":{"name":"` + name + `","namespace":"n"}`
 	if rest != "" {
 		s += "," + rest
 	}
@@ -554,21 +751,58 @@ func k(name string, rest string) string {
 
 var all3 = []string{"Added", "Modified", "Deleted"}
 
+// deliveries of the fixed corpus: the object itself / a tombstone / members of a relist batch
+func ev(t string, state int) Ev { return Ev{Type: t, State: state} }
+func tomb(state int) Ev         { return Ev{Type: "Deleted", State: state, Form: formTombstone} }
+func rl(t string, state int) Ev { return Ev{Type: t, State: state, Batch: "relist"} }
+func rlTomb(state int) Ev {
+	return Ev{Type: "Deleted", State: state, Form: formTombstone, Batch: "relist"}
+}
+
 // Corpus: witnesses and boundary histories; runs first.
 func Corpus() []Input {
 	return []Input{
 		// plain: no filter, change, re-delivery, delete
 		fixed(nil, true, "", "none", []string{k("o1", `"spec":{"replicas":3}`), k("o1", `"spec":{"replicas":4}`)}, []int{1, 1},
-			[]Ev{{"Added", 0}, {"Modified", 0}, {"Modified", 1}, {"Added", 1}, {"Deleted", 1}, {"Added", 1}}),
+			[]Ev{{Type: "Added", State: 0}, {Type: "Modified", State: 0}, {Type: "Modified", State: 1}, {Type: "Added", State: 1}, {Type: "Deleted", State: 1}, {Type: "Added", State: 1}}),
 		// object-valued filter: change outside the projection is suppressed but the snapshot follows
 		fixed(all3, false, ".spec", "path-object", []string{k("o1", `"spec":{"replicas":3},"status":{"phase":"P"}`), k("o1", `"spec":{"replicas":3},"status":{"phase":"R"}`), k("o1", `"spec":{"replicas":4},"status":{"phase":"R"}`)}, []int{1, 1, 1},
-			[]Ev{{"Added", 0}, {"Modified", 1}, {"Modified", 2}, {"Deleted", 2}}),
+			[]Ev{{Type: "Added", State: 0}, {Type: "Modified", State: 1}, {Type: "Modified", State: 2}, {Type: "Deleted", State: 2}}),
 		// only Modified listed
 		fixed([]string{"Modified"}, false, "{r:.spec.replicas}", "constructed", []string{k("o1", `"spec":{"replicas":3}`), k("o1", `"spec":{"replicas":4}`)}, []int{1, 1},
-			[]Ev{{"Added", 0}, {"Modified", 1}, {"Modified", 1}, {"Deleted", 1}}),
+			[]Ev{{Type: "Added", State: 0}, {Type: "Modified", State: 1}, {Type: "Modified", State: 1}, {Type: "Deleted", State: 1}}),
 		// empty list of types: never fires, snapshot still follows
 		fixed([]string{}, false, "", "none", []string{k("o1", `"a":1`), k("o1", `"a":2`)}, []int{1, 1},
-			[]Ev{{"Added", 0}, {"Modified", 1}, {"Deleted", 1}}),
+			[]Ev{{Type: "Added", State: 0}, {Type: "Modified", State: 1}, {Type: "Deleted", State: 1}}),
+
+		// ---- the Deleted change delivered as a tombstone (object deleted while the watch was broken) ----
+		// the smallest one: Added, then the tombstone: Deleted fires, the snapshot is empty
+		fixed(nil, true, "", "none", []string{k("o1", `"data":{"k":"v"}`)}, []int{1},
+			[]Ev{ev("Added", 0), tomb(0)}),
+		// with a filter and only Deleted listed; afterwards the object is unknown again:
+		// a re-creation with the same projection is a change (silent here: Added not listed)
+		fixed([]string{"Deleted"}, false, ".data", "path-object", []string{k("o1", `"data":{"k":"v"}`), k("o1", `"data":{"k":"w"}`)}, []int{1, 1},
+			[]Ev{ev("Added", 0), ev("Modified", 1), tomb(1), ev("Added", 1), ev("Deleted", 1)}),
+		// Deleted not listed: the tombstone fires nothing, the snapshot drops the object,
+		// the re-created identical object is Added again
+		fixed([]string{"Added", "Modified"}, false, "{r:.spec.replicas}", "constructed", []string{k("o1", `"spec":{"replicas":3}`)}, []int{1},
+			[]Ev{ev("Added", 0), tomb(0), ev("Added", 0), ev("Modified", 0)}),
+		// both forms in one history, two objects
+		fixed(all3, false, ".spec", "path-object", []string{k("o1", `"spec":{"replicas":1}`), k("o2", `"spec":{"replicas":2}`)}, []int{1, 2},
+			[]Ev{ev("Added", 0), ev("Added", 1), tomb(0), ev("Deleted", 1)}),
+		// a tombstone for an object the informer does not cache (already deleted): fires too
+		fixed(nil, true, "", "none", []string{k("o1", `"a":1`)}, []int{1},
+			[]Ev{ev("Added", 0), ev("Deleted", 0), tomb(0)}),
+		// a relist after an outage: o1 was deleted, o2 is unchanged and re-delivered, o3 is new
+		fixed(all3, false, ".data", "path-object", []string{k("o1", `"data":{"k":"v"}`), k("o2", `"data":{"k":"w"}`), k("o3", `"data":{"k":"z"}`)}, []int{1, 2, 3},
+			[]Ev{ev("Added", 0), ev("Added", 1), rl("Modified", 1), rl("Added", 2), rlTomb(0)}),
+		// a relist: o1 changed outside the projection (silent, snapshot follows), o2 deleted;
+		// then o2 comes back with the projection it had
+		fixed(nil, true, "{r:.spec.replicas}", "constructed", []string{k("o1", `"spec":{"replicas":3},"status":{"phase":"P"}`), k("o1", `"spec":{"replicas":3},"status":{"phase":"R"}`), k("o2", `"spec":{"replicas":3}`)}, []int{1, 1, 2},
+			[]Ev{ev("Added", 0), ev("Added", 2), rl("Modified", 1), rlTomb(2), ev("Added", 2)}),
+		// a relist that finds everything gone
+		fixed([]string{"Deleted", "Added"}, false, "", "none", []string{k("o1", `"a":1`), k("o2", `"a":2`)}, []int{1, 2},
+			[]Ev{ev("Added", 0), ev("Added", 1), rlTomb(1), rlTomb(0)}),
 	}
 }
 
@@ -577,16 +811,16 @@ func TriggerCorpus() []Input {
 	return []Input{
 		// the design's witness: .spec.replicas 3 -> 4 never triggers
 		fixed(all3, false, ".spec.replicas", "scalar", []string{k("o1", `"spec":{"replicas":3}`), k("o1", `"spec":{"replicas":4}`)}, []int{1, 1},
-			[]Ev{{"Added", 0}, {"Modified", 1}}),
+			[]Ev{{Type: "Added", State: 0}, {Type: "Modified", State: 1}}),
 		// array-valued
 		fixed(all3, false, ".items", "array", []string{k("o1", `"items":[1,2]`), k("o1", `"items":[1,2,3]`)}, []int{1, 1},
-			[]Ev{{"Added", 0}, {"Modified", 1}}),
+			[]Ev{{Type: "Added", State: 0}, {Type: "Modified", State: 1}}),
 		// string-valued
 		fixed(nil, true, ".status.phase", "scalar", []string{k("o1", `"status":{"phase":"P"}`), k("o1", `"status":{"phase":"R"}`)}, []int{1, 1},
-			[]Ev{{"Added", 0}, {"Modified", 1}}),
+			[]Ev{{Type: "Added", State: 0}, {Type: "Modified", State: 1}}),
 		// two outputs with the same key: only the last one counts
 		fixed(all3, false, "{x:.a}, {x:.b}", "multiple", []string{k("o1", `"a":1,"b":5`), k("o1", `"a":2,"b":5`)}, []int{1, 1},
-			[]Ev{{"Added", 0}, {"Modified", 1}}),
+			[]Ev{{Type: "Added", State: 0}, {Type: "Modified", State: 1}}),
 	}
 }
 
@@ -597,12 +831,17 @@ func TriggerCorpusF16() []Input {
 	return []Input{
 		// pure F16 (every non-failing result is a single object)
 		fixed(all3, false, "{r:.spec.replicas.foo}", "error", []string{k("o1", `"spec":{}`), k("o1", `"spec":{"replicas":4}`)}, []int{1, 1},
-			[]Ev{{"Added", 0}, {"Modified", 1}, {"Deleted", 1}}),
+			[]Ev{{Type: "Added", State: 0}, {Type: "Modified", State: 1}, {Type: "Deleted", State: 1}}),
 		fixed(all3, false, ".spec.replicas.foo", "error", []string{k("o1", `"spec":{}`), k("o1", `"spec":{"replicas":4}`)}, []int{1, 1},
-			[]Ev{{"Added", 0}, {"Modified", 1}, {"Deleted", 1}}),
+			[]Ev{{Type: "Added", State: 0}, {Type: "Modified", State: 1}, {Type: "Deleted", State: 1}}),
 		// the filter always fails: the object never appears, nothing ever fires
 		fixed(nil, true, "error(\"boom\")", "error", []string{k("o1", `"a":1`)}, []int{1},
-			[]Ev{{"Added", 0}, {"Deleted", 0}}),
+			[]Ev{{Type: "Added", State: 0}, {Type: "Deleted", State: 0}}),
+		// the same finding through a tombstone: the filter fails on the state the shared
+		// informer's store held last (its Modified was dropped), so the tombstone carrying it
+		// is dropped too and the object stays in the snapshot
+		fixed(all3, false, "{r:.spec.replicas.foo}", "error", []string{k("o1", `"spec":{}`), k("o1", `"spec":{"replicas":4}`)}, []int{1, 1},
+			[]Ev{ev("Added", 0), ev("Modified", 1), tomb(1)}),
 	}
 }
 
@@ -660,14 +899,21 @@ func Gen(r *core.Rng, tier string) ([]core.In[Input], bool) {
 		nIds := 1
 		if g.r.Chance(30) {
 			nIds = 2
+		} else if g.r.Chance(10) {
+			nIds = 3
 		}
-		ins = append(ins, core.In[Input]{Input: g.history(nIds, maxLen, f, subset), Stream: stream})
+		// both forms of the handler's argument and relist batches in 3 cases of 5
+		forms := i%5 < 3
+		if forms && g.r.Chance(40) {
+			nIds = 2 + g.r.Intn(2) // a relist is about several objects
+		}
+		ins = append(ins, core.In[Input]{Input: g.history(nIds, maxLen, f, subset, forms), Stream: stream})
 	}
 	return ins, false
 }
 
 var Driver = core.Driver[Input, Obs]{
 	Spec: core.Spec{Property: "C08", Imports: []string{"Json", "C08_Model", "C08_Spec", "C08_Corr"}, Corr: "C08_Corr", Triggers: []string{"F8", "F16"}, ShrinkKey: "history",
-		Rule: "scripted histories of watch events (1-2 objects; creations, single-field changes mostly outside a given projection, re-deliveries of the identical state, flips back to earlier states, deletes and re-creations) delivered to a real resourceInformer through OnAdd/OnUpdate/OnDelete; all 8 subsets of {Added,Modified,Deleted} and 'not configured' round robin; filter family: none, object paths, constructed objects (main stream), scalars, arrays, null, empty/select, multiple outputs (trigger-F8 stream, ~27%), failing filters (trigger-F16 stream, ~8%); /usr/bin/jq answers for every state are the model's oracle table; non-trivial = >= 3 deliveries with at least one fired and one silent delivery; distinct = distinct input text"},
+		Rule: "scripted histories of watch events (1-3 objects; creations, single-field changes mostly outside a given projection, re-deliveries of the identical state, flips back to earlier states, deletes and re-creations) delivered to the resourceInformer of a real monitor (NewMonitor+CreateInformers on a fake cluster, not started) through its client-go handler methods OnAdd/OnUpdate/OnDelete; the handler's argument in both forms client-go uses: the *unstructured.Unstructured itself, or - in 3 cases of 5 for half of the Deleted deliveries - the cache.DeletedFinalStateUnknown tombstone (by value) that a real client-go DeltaFIFO.Replace produces for an object missing from a relist; in those cases also relist batches (15% per step: per object changed / deleted-and-recreated -> OnUpdate, unchanged -> OnUpdate or left out, new -> OnAdd, then tombstones for the missing ones); all 8 subsets of {Added,Modified,Deleted} and 'not configured' round robin; filter family: none, object paths, constructed objects (main stream), scalars, arrays, null, empty/select, multiple outputs (trigger-F8 stream, ~27%), failing filters (trigger-F16 stream, ~8%); /usr/bin/jq answers for every state are the model's oracle table; non-trivial = >= 3 deliveries with at least one fired and one silent delivery; distinct = distinct input text"},
 	Gen: Gen, Run: Run, Render: Render, PerShard: 250, Workers: 8, CaseTimout: 20 * time.Second,
 }
